@@ -82,14 +82,22 @@ type session struct {
 	announced   [][2]uint64
 	termChecked bool
 	// opOrder: ids of the operations sent through env.modify, in send order; opResp: operation responses seen.
-	// The server answers every operation with one ModifyResponse (possibly without results, when it is held),
-	// in order, so the k-th such response was triggered by the k-th operation and can only carry results of
-	// operations received before it. Used only to tell apart two operations that share an id (env.shadow);
-	// given up (alignLost) as soon as a response does not fit.
+	// A server that answers every operation with one ModifyResponse of its own (possibly without results, when
+	// the operation is held), in order, lets the k-th such response be attributed to the k-th operation: it can
+	// only carry results of operations received before it. That is a trait of an implementation, not something
+	// the properties demand (a server may merge or split responses), so it is used only while it is borne out:
+	// every batch of responses must contain exactly as many operation responses as operations are awaiting
+	// one, and each must fit; otherwise it is given up for the session (alignLost). It is used only to tell
+	// apart two operations that share an id (env.shadow).
 	opOrder   []uint64
 	opResp    int
 	alignLost bool
 }
+
+// sharePlan: for an id used both by the stream's own operation and by a still-held operation of an earlier
+// session, how many of the verdicts (RIB_PROGRAMMED / FAILED) that arrive under it in the batch of responses
+// being processed belong to each - as far as counting and the implementation's held set can tell.
+type sharePlan struct{ own, shadow int }
 
 // env is the state of one simulated run.
 type env struct {
@@ -111,6 +119,7 @@ type env struct {
 	// current primary's stream under an id that stream also uses (known finding KF-C06-1).
 	shadow  map[uint64]*opRec
 	curTrig int // position (session.opOrder) of the operation that triggered the response being processed, or -1
+	plan    map[uint64]*sharePlan
 	// invalidScenario: the scenario asks the harness' own client for something no client may do (see modify)
 	invalidScenario bool
 	perNIFlush      bool
@@ -311,6 +320,20 @@ func kindSig(op *spb.AFTOperation) string {
 
 // processResults replays the results of one stream in acknowledgement order.
 func (e *env) processResults(s *session, rs []*spb.ModifyResponse) {
+	nOpResp := 0
+	for _, r := range rs {
+		if r.GetSessionParamsResult() == nil && r.GetElectionId() == nil {
+			nOpResp++
+		}
+	}
+	if len(s.opOrder) > 0 && !s.alignLost && nOpResp != len(s.opOrder)-s.opResp {
+		s.alignLost = true
+		if nOpResp > 0 {
+			e.probe("responses and operations do not pair up one to one (merged, split or cut short)")
+		}
+	}
+	e.plan = e.planShared(s, rs)
+	defer func() { e.plan = nil }()
 	for _, r := range rs {
 		if r.GetSessionParamsResult() != nil || r.GetElectionId() != nil {
 			if r.GetElectionId() != nil {
@@ -457,6 +480,50 @@ func (e *env) implHeldIDs() []uint64 {
 	return out
 }
 
+// planShared counts, for every id of the batch that an earlier session's held operation shares with one of
+// this stream's own operations, the verdicts that arrive under it, and splits them: the stream's own operation
+// receives exactly one unless it is already answered or the implementation (still) holds it at the end of the
+// batch; the rest can only be the earlier operation's.
+func (e *env) planShared(s *session, rs []*spb.ModifyResponse) map[uint64]*sharePlan {
+	if len(e.shadow) == 0 {
+		return nil
+	}
+	n := map[uint64]int{}
+	for _, r := range rs {
+		for _, res := range r.GetResult() {
+			if st := res.GetStatus(); st == spb.AFTResult_RIB_PROGRAMMED || st == spb.AFTResult_FAILED {
+				if e.shadow[res.GetId()] != nil && s.sent[res.GetId()] != nil {
+					n[res.GetId()]++
+				}
+			}
+		}
+	}
+	if len(n) == 0 {
+		return nil
+	}
+	pend := e.srv.VerifRIB().VerifPending()
+	out := map[uint64]*sharePlan{}
+	for id, cnt := range n {
+		own := s.sent[id]
+		ownHeld := false
+		for _, p := range pend {
+			if p.ID == id && proto.Equal(p.Op, own.op) {
+				ownHeld = true
+			}
+		}
+		pl := &sharePlan{}
+		if (own.state == opSent || own.state == opHeld) && !ownHeld {
+			pl.own = 1
+		}
+		if pl.own > cnt {
+			pl.own = cnt
+		}
+		pl.shadow = cnt - pl.own
+		out[id] = pl
+	}
+	return out
+}
+
 // resultIsForShadow decides whether a result that arrived under an id used both by the stream's own
 // operation own and by a still-held operation sh of an earlier session belongs to the latter.
 func (e *env) resultIsForShadow(own, sh *opRec, res *spb.AFTResult) bool {
@@ -467,6 +534,28 @@ func (e *env) resultIsForShadow(own, sh *opRec, res *spb.AFTResult) bool {
 		// the server has not even looked at that one yet
 		return shLive || (sh.state == opProgrammed && res.GetStatus() == spb.AFTResult_FIB_PROGRAMMED && sh.fib == 0)
 	}
+	if pl := e.plan[res.GetId()]; pl != nil && res.GetStatus() != spb.AFTResult_FIB_PROGRAMMED {
+		// counting settles it when all verdicts under this id belong to one of the two
+		switch {
+		case pl.shadow == 0 && pl.own > 0:
+			pl.own--
+			return false
+		case pl.own == 0 && pl.shadow > 0 && shLive:
+			pl.shadow--
+			return true
+		}
+		forShadow := e.shadowByContent(own, sh, res, ownTerminal, shLive)
+		if forShadow && pl.shadow > 0 {
+			pl.shadow--
+		} else if !forShadow && pl.own > 0 {
+			pl.own--
+		}
+		return forShadow
+	}
+	return e.shadowByContent(own, sh, res, ownTerminal, shLive)
+}
+
+func (e *env) shadowByContent(own, sh *opRec, res *spb.AFTResult, ownTerminal, shLive bool) bool {
 	switch res.GetStatus() {
 	case spb.AFTResult_FIB_PROGRAMMED:
 		if own.state == opProgrammed && own.fib == 0 {
